@@ -64,6 +64,8 @@ def jobs(tier, seed):
     units = [(3, 2, [2]), (4, 2, [2]), (5, 2, [2]), (4, 3, [3]), (3, 4, [2, 2]), (3, 4, [4])]
     out.append(('unit-nan-column-k4', dict(kind='unit', k=4, c=2, shape=[2], method='nan')))
     out.append(('unit-nan-column-k5', dict(kind='unit', k=5, c=3, shape=[3], method='nan')))
+    out.append(('unit-nan-partial-k5', dict(kind='unit', k=5, c=2, shape=[2], method='nanpartial')))
+    out.append(('unit-nan-partial-k6', dict(kind='unit', k=6, c=3, shape=[3], method='nanpartial')))
     if th:
         units += [(7, 2, [2]), (5, 3, [3]), (4, 4, [2, 2])]
     for (k, c, shape) in units:
@@ -95,6 +97,9 @@ def run_job(job, kind, k, c, shape, method):
     if kind == 'args2':
         return args2(job, method, c, tuple(shape))
     if kind == 'unit':
+        if method == 'nanpartial':
+            # the last column is NaN for the two largest steps only; nothing is claimed about it, the others must not notice
+            return unit(job, k, c, tuple(shape), nan_cols=(c - 1,), nan_cells=((0, c - 1), (1, c - 1)))
         return unit(job, k, c, tuple(shape), nan_cols=(c - 1,) if method == 'nan' else ())
     if kind == 'vstack':
         return vstack(job)
@@ -111,8 +116,8 @@ def _same(a, b):
     return z3.is_true(z3.simplify(ta == tb))
 
 
-def unit(job, k, c, shape, nan_cols=()):
-    der, steps, paths, ex = eu.explore(k, c, shape, nan_cols=nan_cols)
+def unit(job, k, c, shape, nan_cols=(), nan_cells=None):
+    der, steps, paths, ex = eu.explore(k, c, shape, **(dict(nan_cells=nan_cells) if nan_cells else dict(nan_cols=nan_cols)))
     job.absorb_explorer(ex)
     # the single-column reference run (same symbol names as column 0)
     _d1, _s1, paths1, ex1 = eu.explore(k, 1, ())
@@ -448,23 +453,55 @@ def replay(cex):
     rng = np.random.default_rng(0)
     if kind == 'unit':
         k, c, shape = cfg['k'], cfg['c'], tuple(cfg['shape'])
-        if cfg.get('method') == 'nan':
-            for trial in range(50):
+        if cfg.get('method') in ('nan', 'nanpartial'):
+            asg_ = cm.assignment_from_model(cex.get('model', {}))
+            for trial in range(400 if cfg.get('method') == 'nanpartial' else 50):
                 dv = 1.0 + rng.normal(size=(k, c)) * 10.0 ** rng.integers(-6, 1)
-                dv[:, c - 1] = np.nan
+                if trial == 0 and asg_:
+                    # the solver's own table first (column symbols d_i_j; the counterexample may have been found after renaming
+                    # the column to 0, so the values are tried for every column)
+                    for i in range(k):
+                        for j in range(c):
+                            dv[i, j] = float(asg_.get('d_%d_%d' % (i, j), asg_.get('d_%d_0' % i, dv[i, j])))
+                if cfg.get('method') == 'nan':
+                    dv[:, c - 1] = np.nan
+                else:
+                    dv[:2, c - 1] = np.nan          # NaN for the two largest steps only
+                    if trial % 2:
+                        dv[rng.integers(0, k), 0] *= 1.0 + 10.0 ** rng.integers(0, 3)     # an outlier in the finite column
                 hv = 0.5 ** np.arange(k)[:, None] * np.ones((1, c))
+                if trial == 0 and asg_:
+                    for i in range(k):
+                        for j in range(c):
+                            hv[i, j] = abs(float(asg_.get('h_%d_%d' % (i, j), asg_.get('h_%d_0' % i, hv[i, j])))) or hv[i, j]
                 mk = lambda: ex.Richardson(step_ratio=2.0, step=2, order=2, num_terms=2)  # noqa
                 L = lim._Limit(); L.richardson = mk()
                 with cm.quiet():
                     val, info = L._extrapolate(dv.copy(), hv.copy(), shape)
-                    L1 = lim._Limit(); L1.richardson = mk()
-                    v1, i1 = L1._extrapolate(dv[:, [0]].copy(), hv[:, [0]].copy(), ())
-                a = (np.ravel(val)[0], np.ravel(info.error_estimate)[0], np.ravel(info.final_step)[0])
-                s_ = (float(v1), float(i1.error_estimate), float(i1.final_step))
-                if a != s_:
-                    return True, ('with an all-NaN neighbour column, column 0 gives (value, error, final_step) = %r; evaluated alone it '
-                                  'gives %r' % (a, s_))
-            return False, 'an all-NaN column does not influence its neighbours'
+                for j in range(c - 1):
+                    with cm.quiet():
+                        L1 = lim._Limit(); L1.richardson = mk()
+                        v1, i1 = L1._extrapolate(dv[:, [j]].copy(), hv[:, [j]].copy(), ())
+                    a = (np.ravel(val)[j], np.ravel(info.error_estimate)[j], np.ravel(info.final_step)[j])
+                    s_ = (float(v1), float(i1.error_estimate), float(i1.final_step))
+                    if a != s_:
+                        return True, ('with a neighbour column that is NaN (%s), column %d gives (value, error, final_step) = %r; evaluated alone it '
+                                      'gives %r' % ('at every step' if cfg.get('method') == 'nan' else 'at the two largest steps', j, a, s_))
+            if cfg.get('method') == 'nanpartial':
+                # end to end: functions that are NaN for the large steps only at some elements (sqrt / log near their domain boundary)
+                import warnings
+                for fun, pts in ((np.sqrt, [8.0, 0.5, 0.75, 20.0, 3.0]), (np.log, [6.0, 0.4, 0.7, 15.0, 2.0])):
+                    for kw in (dict(), dict(n=2), dict(n=3), dict(method='backward'), dict(method='forward', n=2), dict(order=4)):
+                        xarr = np.array(pts)
+                        with cm.quiet(), warnings.catch_warnings(), np.errstate(all='ignore'):
+                            warnings.simplefilter('ignore')
+                            va = nd.Derivative(fun, **kw)(xarr)
+                            for i, xv in enumerate(pts):
+                                vs = nd.Derivative(fun, **kw)(xv)
+                                if not (va[i] == vs or (np.isnan(va[i]) and np.isnan(vs))):
+                                    return True, ('Derivative(%s, %s): element %r gives %r inside the array %r, %r alone as a scalar'
+                                                  % (fun.__name__, kw, xv, va[i], pts, vs))
+            return False, 'a column with NaN estimates does not influence its neighbours'
         for trial in range(200):
             scale = 10.0 ** rng.integers(-8, 1)
             dv = 1.0 + rng.normal(size=(k, c)) * scale
